@@ -273,6 +273,11 @@ def program(draw, profile=None):
                         tg = ["me"] if draw(st.integers(0, 2)) else [draw(st.sampled_from(anames + snames))]
                     else:
                         tg = [draw(st.sampled_from(anames + snames))]
+                    if draw(st.integers(0, 2)) == 0:        # one verb naming several taskers
+                        more = draw(st.lists(st.sampled_from(anames + snames), min_size=1, max_size=2))
+                        tg = tg + [t for t in dict.fromkeys(more) if t not in tg]
+                        if draw(st.booleans()):
+                            tg = tg[::-1]
                     a = {"kind": "done", "targets": tg,
                          "ctx": draw(st.sampled_from(["native", "native", "recur", "exit"]))}
                 elif k == "fiat":
